@@ -66,6 +66,47 @@ class HarnessError(Exception):
     """The harness itself is broken (binding, determinism, merge check). Exit 2."""
 
 
+class ExecutionTimeout(BaseException):
+    """One execution of the code under test did not come back within its wall budget
+    (an unbounded loop in the implementation): reported as a violation, never a hang."""
+
+
+class deadline:
+    """`with deadline(30):` raises ExecutionTimeout in this (main) thread after 30 s of wall time,
+    and again every second after that in case the code under test swallowed it."""
+
+    def __init__(self, seconds: float):
+        self.seconds = seconds
+
+    def _fire(self, signum, frame):
+        raise ExecutionTimeout(f"no return after {self.seconds:g} s")
+
+    def __enter__(self):
+        import signal
+        self._old = signal.signal(signal.SIGALRM, self._fire)
+        signal.setitimer(signal.ITIMER_REAL, self.seconds, 1.0)
+        return self
+
+    def __exit__(self, *a):
+        import signal
+        signal.setitimer(signal.ITIMER_REAL, 0)
+        signal.signal(signal.SIGALRM, self._old)
+        return False
+
+
+EXEC_BUDGET_S = float(os.environ.get("VERIF_EXEC_BUDGET", "30"))
+
+
+def _limit_worker_memory():
+    """A runaway execution must fail inside its worker (MemoryError), not take the machine down."""
+    import resource
+    try:
+        cap = int(os.environ.get("VERIF_WORKER_MEM_GB", "6")) << 30
+        resource.setrlimit(resource.RLIMIT_AS, (cap, cap))
+    except Exception:  # noqa: BLE001
+        pass
+
+
 class Ctx:
     def __init__(self, prop: str, tier: str, seed: int):
         self.prop = prop
@@ -127,35 +168,46 @@ class Ctx:
 
     # ---- parallel map ---------------------------------------------------
     def pmap(self, func, jobs, chunksize: int = 1):
-        """Run func(job) -> Part over jobs on a fork pool; yields Parts in order."""
+        """Run func(job) -> Part over jobs on a fork pool; yields Parts in order.
+        A worker that dies (killed, out of memory) breaks the pool -> HarnessError, never a hang."""
         jobs = list(jobs)
         if not jobs:
             return
         if self.workers <= 1 or len(jobs) == 1:
             for j in jobs:
-                yield func(j)
+                part = _guard(func)(j)
+                if isinstance(part, _WorkerFailure):
+                    raise HarnessError(part.tb)
+                yield part
             return
+        from concurrent.futures.process import BrokenProcessPool
+
         pool = self._get_pool()
-        for part in pool.imap(_guard(func), jobs, chunksize):
-            if isinstance(part, _WorkerFailure):
-                raise HarnessError(part.tb)
-            yield part
+        try:
+            for part in pool.map(_guard(func), jobs, chunksize=chunksize):
+                if isinstance(part, _WorkerFailure):
+                    raise HarnessError(part.tb)
+                yield part
+        except BrokenProcessPool as e:
+            self._pool = None
+            raise HarnessError(f"a worker process died ({e}); the run is void")
 
     def _get_pool(self):
         # one long-lived fork pool per check, created before the master grows
         # (forking a large master per level costs more in page copies than it wins)
         if getattr(self, "_pool", None) is None:
             import gc
+            from concurrent.futures import ProcessPoolExecutor
 
             gc.collect()
             gc.freeze()
-            self._pool = mp.get_context("fork").Pool(self.workers)
+            self._pool = ProcessPoolExecutor(self.workers, mp_context=mp.get_context("fork"),
+                                             initializer=_limit_worker_memory)
         return self._pool
 
     def close_pool(self):
         if getattr(self, "_pool", None) is not None:
-            self._pool.terminate()
-            self._pool.join()
+            self._pool.shutdown(wait=False, cancel_futures=True)
             self._pool = None
 
     def elapsed(self):
